@@ -4,6 +4,16 @@ import json, os, sys
 V = os.path.dirname(os.path.dirname(os.path.abspath(__file__)))
 
 CHECKS = {
+ "C09": dict(
+   text="Theorems in Rocq (rocq/Props/C09.v, 10 statements, axiom-free, over a symbolic-signature model of head.Header.Contains, Envelope.Verify and internal/cli.Verify): sign-then-verify, stability under any list of non-overwriting additions (induction), wrong key fails, verify_sound with one conjunct per covered header member (uuid, digest, each stamp, link, tag, meta entry, notes) and its converse, verify-after-recalculation fails unless the digest collides, and cli_verify ok <-> validate ok and verify ok for the repaired command-line path; the as-shipped command-line path is refuted by a computed witness. The model is tied to the code by presenting ~600 modified signed envelopes x 4 keys (quick; thorough: all pairs and sampled triples of modifications) to Envelope.Verify, the gobl binary, POST /bulk and POST /verify of a loopback gobl serve, comparing verdict classes with the model and judging them against what the generator knows was signed.",
+   note="Signatures are symbolic (Sig signer header): ES256 unforgeability and go-jose/encoding-json correctness are assumed, not proved. Model = code after fixes/C09-9, C10-10, C10-11 diffs; until they are applied the three recorded defects (findings/C09.json) are reported as KNOWN-FINDING by narrow matchers, anything else as VIOLATION. Bulk/HTTP/CLI share one Go function, the model has one verdict for them; YAML input, per-element validation of stamps/links and uuid version rules are outside the model.",
+   technique="Rocq theorems over a Gallina model + differential correspondence (extracted OCaml vs Go library, CLI binary, loopback HTTP server)",
+   design="7 (C09)"),
+ "C10": dict(
+   text="Theorems in Rocq (rocq/Props/C10.v, 18 statements, axiom-free) over a state-machine model of gobl.Envelope (32 operations incl. JSON surgery): on API histories the shipped and the repaired code coincide step by step; the outcome of every API operation is a table function of the abstract state (four facts of the statement + validity outside a signing context + document present/calculable) on every state reachable by API operations (induction over histories with fold_left); Sign succeeds only on valid envelopes with matching digest, every signature in any API history covers the digest of a document valid for signing, a failed Sign leaves the envelope unsigned, stamps validate only when signed, every signature entry is real (all histories without the sigs:[null]/[\"\"] surgery; for the repaired code every validated envelope), Validate/Verify are read-only, the repaired code never panics; the shipped code's defects 10 and 11 are refuted by computed witnesses. Tie: all 16^4 histories over the 16-operation alphabet on the main document, 16^3 on three other documents and the empty envelope (thorough: 16^5 complete and a seed-chosen sixteenth of 16^6; VERIF_C10_FULL6=1 for all of 16^6), random histories of length 7-30 over all 32 operations, each run step by step on the real library and the extracted model (outcome class and len(sigs)), and judged by the statement's clauses with independent bookkeeping.",
+   note="The document is abstract (calculates / validates / has code / digest of content); four fixed invoices stand for it. Signatures symbolic (see C09). Model = code after fixes/C10-10 and C10-11 diffs; the two recorded defects (findings/C10.json) are matched narrowly (surgery operation present and as-shipped variant of exactly that function reproduces the output). A failed Sign on an envelope without header keeps earlier signatures (state unreachable by API operations; stated as a theorem, not judged).",
+   technique="Rocq theorems over a Gallina model + exhaustive/random differential correspondence (extracted OCaml vs Go)",
+   design="7 (C10)"),
  "C05": dict(
    text="Theorems in Rocq (rocq/Props/C05.v, 19 statements, axiom-free) state every amount/percentage operation of the model Num/Amount.v as the exact rational rounded half away from zero at the documented precision, plus the lossless laws; the model is tied to num/*.go by running both on the same ~750k cases (exhaustive small grid, constructed ties, random up to 2^52) and any in-domain difference is reported as the failing input.",
    note="Trusted: Coq kernel, extraction (ExtrOcamlBasic), OCaml driver, Go harness, python comparison. Modelled not verified: float64 hardware path of Multiply/Divide/Rescale is covered by the correspondence inside the 2^52 domain; AmountFromFloat64/Float64/formatter not covered.",
